@@ -651,9 +651,9 @@ class DictConverter(t.Generic[FromDataK, FromDataV], Converter[t.Mapping[FromDat
         nodes: _ProductErrorChildren = {}
         for (k, v) in val.items():
             if (node := self.k_conv.collect_errors(k)) is not None:
-                nodes[str(k)] = node  # TODO split bad fields from bad values
+                nodes[k] = node  # TODO split bad fields from bad values
             if (node := self.v_conv.collect_errors(v)) is not None:
-                nodes[str(k)] = node
+                nodes[k] = node
         if len(nodes):
             return ProductErrorNode(self.expected(), nodes, val)
         # try to construct val
